@@ -1,3 +1,4 @@
+import QF.Props.Tie
 import QF.Core.Upper
 /-!
 # C18 — ilike's upper-casing
@@ -11,5 +12,8 @@ namespace QF.Props.C18
 
 theorem toUpper_spec (up : Char → Char) (bufLen : Nat) (s : List Char) : U.toUpper up bufLen s = U.spec up s :=
   U.toUpper_spec' up bufLen s
+
+/-- T1: the functions this property's mirror model follows have today the source text the model was written against. -/
+theorem tie : Tie.sameAll ["strings.ToUpper", "strings.NewMatcher", "scolumn.regexFilter", "ecolumn.filterLike"] = true := by decide
 
 end QF.Props.C18
